@@ -396,7 +396,7 @@ def r7_factories(report, repo):
       cands = [lit, lit + '\n', lit + 'X', 'X' + lit, lit + lit,
                lit.replace('.', 'Z').replace('+', '').replace('|', '')
                or 'Q', lit.upper() if lit.upper() != lit else lit + ' ',
-               lit + '\n\n']
+               lit + '\n\n', lit + '\nX', 'X\n' + lit]
       for cnd in cands:
         n += 1
         it.steps = 0
@@ -425,11 +425,13 @@ def r7_factories(report, repo):
   rets = [n for n in walk_no_nested(mr.node) if isinstance(n, ast.Return)]
   ok = len(rets) == 1 and isinstance(rets[0].value, ast.Call) and \
       last_attr(rets[0].value) == 'RegexMatcher' and any(
-          call_name(a) == 're.compile' and dotted(a.args[0]) ==
-          dotted(rets[0].value.args[0])
+          call_name(a) == 're.compile' and len(a.args) == 1 and
+          not a.keywords and dotted(a.args[0]) == dotted(rets[0].value.args[0])
           for a in rets[0].value.args if isinstance(a, ast.Call))
   report.check(ok, rule, mr.qualname, 'compile', mr.node,
-               'matches_regex compiles the pattern it records')
+               'matches_regex compiles the pattern it records, without flags',
+               'matches_regex compiles a different pattern / adds flags that '
+               'change what the declared regex accepts')
 
 
 def r8_identity(report, repo):
